@@ -688,6 +688,35 @@ def oracle_c04(sc, res):
     fin = w.final_obs("final")
     status_ok = fin is not None and fin["status"] == "running"
     during_start_tags = set()
+    # ---- nothing accepted is still waiting when the whole system is idle (no thread / task runnable at that instant):
+    # an event left in the queue until somebody else happens to send is lost for all practical purposes
+    qs = [r for r in res.trace if r[K] == "quiescent"]
+    if qs and status_ok:
+        recv_seq = {}
+        for r in w.recv:
+            if r[6] is not None and r[6] not in recv_seq:
+                recv_seq[r[6]] = r[SEQ]
+        stranded = None
+        for q in qs:
+            for i, op in enumerate(ops):
+                if op.get("op") not in ("send", "send_events"):
+                    continue
+                call, ret = w.ops_call.get(i), w.ops_ret.get(i)
+                if call is None or ret is None or ret[6] != "ok" or call[8] != "running" or ret[SEQ] > q[SEQ]:
+                    continue
+                tags_ = [op["tag"]] if op["op"] == "send" and "tag" in op else [e["tag"] for e in op.get("events", []) if "tag" in e]
+                for t in tags_:
+                    if recv_seq.get(t, 10 ** 18) > q[SEQ] and not (has_log(w, "chained self-raised") or discard):
+                        stranded = (t, q[T])
+                        break
+                if stranded:
+                    break
+            if stranded:
+                break
+        if stranded:
+            vios.append(Violation("C04", "event-stranded-at-quiescence", {"engine": sc["engine"], "preempted": preempted},
+                                  f"accepted event tag {stranded[0]} was still unprocessed at {stranded[1]}us although no thread / task was "
+                                  f"runnable (it was only processed later, or never)"))
     for i, op in enumerate(ops):
         call = w.ops_call.get(i)
         if call is not None and call[SEQ] < start_ret_seq and op.get("op") in ("send", "send_events"):
@@ -900,6 +929,8 @@ def oracle_c09(sc, res):
                                           f"service {ident} failed with no onError but status is {fin['status']} error={fin['error']!r}"))
             continue
         if outcome == "raise" and not inv["on_error"]:
+            if has_log(w, "chained self-raised"):
+                continue  # the failure notification was part of a chain the maxIterations bound cut (logged): C13's business
             vios.append(Violation("C09", "unhandled-failure-not-error-status", {"engine": sc["engine"], "status": fin["status"]},
                                   f"service {ident} failed with no onError but status is {fin['status']}"))
             continue
